@@ -747,21 +747,21 @@ func fullShapes() []shape {
 // a rotating subset of the combinations on the larger ones
 func drawnShapes() []shape {
 	if pbt.Thorough() {
-		return cat(both(3, 3, 4), both(4, 2, 12), both(2, 4, 12), both(1, 5, 96), both(5, 1, 96), both(1, 6, 16), both(6, 1, 16))
+		return cat(both(3, 3, 3), both(4, 2, 8), both(2, 4, 8), both(1, 5, 96), both(5, 1, 96), both(1, 6, 16), both(6, 1, 16))
 	}
 	return cat(both(3, 2, 12), both(2, 3, 12), both(4, 1, 96), both(1, 4, 96), both(1, 5, 16))
 }
 
 func variantShapes() []shape {
 	if pbt.Thorough() {
-		return cat(both(1, 1, 0), both(1, 2, 0), both(2, 1, 0), both(2, 2, 0), both(3, 1, 0), both(1, 3, 0), both(4, 1, 0), both(1, 4, 0), both(3, 2, 0), both(2, 3, 0), both(1, 5, 0), both(5, 1, 0), both(4, 2, 9), both(2, 4, 9), both(3, 3, 1))
+		return cat(both(1, 1, 0), both(1, 2, 0), both(2, 1, 0), both(2, 2, 0), both(3, 1, 0), both(1, 3, 0), both(4, 1, 0), both(1, 4, 0), both(3, 2, 0), both(2, 3, 0), both(1, 5, 0), both(5, 1, 0), both(4, 2, 6), both(2, 4, 6), both(3, 3, 1))
 	}
 	return cat(both(1, 1, 0), both(1, 2, 0), both(2, 1, 0), both(2, 2, 0), both(3, 1, 0), both(1, 3, 0), both(4, 1, 0), both(1, 4, 0), both(3, 2, 9), both(2, 3, 9), both(1, 5, 18))
 }
 
 func seqShapes() []shape {
 	if pbt.Thorough() {
-		return cat(both(1, 1, 0), both(1, 2, 0), both(2, 1, 0), both(2, 2, 0), both(3, 1, 0), both(1, 3, 0), both(4, 1, 0), both(1, 4, 0), both(3, 2, 126), both(2, 3, 126), both(2, 4, 6), both(3, 3, 1), both(1, 5, 0))
+		return cat(both(1, 1, 0), both(1, 2, 0), both(2, 1, 0), both(2, 2, 0), both(3, 1, 0), both(1, 3, 0), both(4, 1, 0), both(1, 4, 0), both(3, 2, 63), both(2, 3, 63), both(2, 4, 6), both(3, 3, 1), both(1, 5, 0))
 	}
 	return cat(both(1, 1, 0), both(1, 2, 0), both(2, 1, 0), both(2, 2, 0), both(3, 1, 0), both(1, 3, 0), both(1, 4, 0), both(3, 2, 9), both(2, 3, 18))
 }
